@@ -82,7 +82,8 @@ func firstCharOfInitialism(s string, i int) bool {
 	r2, _ := utf8.DecodeLastRuneInString(s[:i])
 
 	// need the equal to for when the rune is the last char in the string (ex: EnvVarA)
-	return len(s) >= i+rl1 && i >= 1 && unicode.IsUpper(r1) && unicode.IsLower(r2)
+	// a word may also end in digits (e.g., sha256*I*D)
+	return len(s) >= i+rl1 && i >= 1 && unicode.IsUpper(r1) && (unicode.IsLower(r2) || unicode.IsDigit(r2))
 }
 
 // firstCharAfterInitialism, as used in DecodeGoCamelCase, attempts to
@@ -138,6 +139,9 @@ func decodeGoCamelCase(s string, isWordBoundary func(rune) bool) (DecodedIdentif
 					words = append(words, extractInitialisms(word)...)
 					return words, nil
 				}
+				// not a run of initialisms: keep the pending word
+				// for the final flush rather than dropping it
+				continue
 			}
 			lastBoundary = i
 		}
